@@ -646,7 +646,9 @@ def mc_lattice(tier):
         L.append(("t-short", S(init=(119, 250), minInc=(1, 20)), "scripted", 0, R4, (), True, 60))
         L.append(("t-maxinc", S(init=(1, 8), maxInc=(1, 4), minInc=(1, 16)), "scripted", 0, (1, 4, 8), (), True, 60))
         L.append(("t-dim2", S(minInc=(1, 8), maxNumIter=3), "scripted", 2, (1, 4, 8), (), False, 0))
-        L.append(("t-dim2ls", S(minInc=(1, 8), ls=True, init=(1, 2)), "scripted", 2, (0, 4), ("one", "two", "third"), False, 0))
+        L.append(("t-dim2ls", S(minInc=(1, 4), ls=True, init=(1, 2)), "scripted", 2, (0, 4), ("one", "two", "third"), False, 0))
+        L.append(("t-deep", S(minInc=(1, 50)), "scripted", 0, R5, (), True, 250))
+        L.append(("t-deep1", S(init=(1, 1), minInc=(1, 30)), "scripted", 0, R5, (), True, 250))
     # linear problems (deterministic): every combination of the method switches
     for init in ((3, 10), (1, 1), (2, 1), (119, 250)) if tier == "quick" else ((3, 10), (1, 1), (2, 1), (119, 250), (1, 8), (7, 10)):
         for ls in (False, True):
@@ -757,18 +759,19 @@ def run(tier, seed, build):
     lattice = mc_lattice(tier)
 
     # 1. bounded models: code-as-is (deviations on, edges emitted) and literal property (deviations off)
-    def mc_one(k):
+    def mc_one(job):
+        k, kf = job
         name, s, env, dim, resid, lsn, emit, cap = lattice[k]
-        w = 2 if env == "linear" else 4
-        on = run_tlc("c09-mc%d" % k, "MC_NewtonRaphson", mc_cfg(s, True, True, env, dim, resid, lsn, emit),
-                     workers=w, timeout=2400)
-        off = run_tlc("c09-mcl%d" % k, "MC_NewtonRaphson", mc_cfg(s, False, False, env, dim, resid, lsn, False),
-                      workers=w, timeout=2400)
-        return fix_counts(on), fix_counts(off)
+        return fix_counts(run_tlc("c09-mc%d%s" % (k, "on" if kf else "off"), "MC_NewtonRaphson",
+                                  mc_cfg(s, kf, kf, env, dim, resid, lsn, emit and kf),
+                                  workers=(1 if env == "linear" else 4), timeout=3000))
 
     t0 = time.time()
-    with cf.ThreadPoolExecutor(max_workers=6) as ex:
-        mcres = list(ex.map(mc_one, range(len(lattice))))
+    jobs = [(k, kf) for k in range(len(lattice)) for kf in (True, False)]
+    jobs.sort(key=lambda j: lattice[j[0]][2] == "linear")        # long jobs first
+    with cf.ThreadPoolExecutor(max_workers=8) as ex:
+        done = dict(zip(jobs, ex.map(mc_one, jobs)))
+    mcres = [(done[(k, True)], done[(k, False)]) for k in range(len(lattice))]
     seen_actions = collections.Counter()
     sig_reached = collections.Counter()
     groups = []           # direction A: (settings, runs)
